@@ -95,6 +95,36 @@ def read_chunked(b: bytes):
         chunks.append(b[j + 2:j + 2 + n]); pos = j + 4 + n
 
 
+# every spelling of a Transfer-Encoding header the READER (validate.parse_transfer_encoding + Headers.get) takes for
+# "chunked is the final coding": case variants, coding lists with/without OWS and tabs around the comma, two header lines
+# (the latter only passes with validate_inbound_headers off)
+TE_SPELLINGS = ["chunked", "chunked", "Chunked", "CHUNKED", "gzip, chunked", "gzip,chunked", "deflate ,chunked",
+                "compress ,\tchunked", "GZip,\t Chunked", "gzip ,\t chunked", "deflate, chunked", "2lines:gzip|chunked",
+                "2lines:Deflate|CHUNKED"]
+
+
+def te_header(sub) -> bytes:
+    te = sub.get("te") or "chunked"
+    if te.startswith("2lines:"):
+        return b"".join(b"Transfer-Encoding: " + v.encode() + b"\r\n" for v in te[7:].split("|"))
+    return b"Transfer-Encoding: " + te.encode() + b"\r\n"
+
+
+def needs_novalidate(case) -> bool:
+    return any((c.get("te") or "").startswith("2lines:") for c in (case, case.get("pre") or {}))
+
+
+def head_says_chunked(phead: bytes) -> bool:
+    """independent reading of a message head (RFC 9112 6.1): chunked is the final transfer coding of the combined
+    Transfer-Encoding field value"""
+    vals = []
+    for line in phead.split(b"\r\n")[1:]:
+        name, _, val = line.partition(b":")
+        if name.strip().lower() == b"transfer-encoding": vals.append(val)
+    codings = [c.strip(b" \t").lower() for c in b",".join(vals).split(b",")]
+    return bool(vals) and codings[-1] == b"chunked"
+
+
 def status_of(raw: bytes):
     if not raw.startswith(b"HTTP/1.1 "): return None
     try: return int(raw[9:12])
@@ -111,7 +141,7 @@ def run_flow(case):
     with taddons.context(proxyserver.Proxyserver()) as tctx:
         try:
             tctx.options.update(body_size_limit=case["limit"], stream_large_bodies=case["thr"],
-                                store_streamed_bodies=bool(case["store"]))
+                                store_streamed_bodies=bool(case["store"]), validate_inbound_headers=not needs_novalidate(case))
         except exceptions.OptionsError:
             return {"rejected": True}
         ctx = make_context(opts=tctx.options)
@@ -150,7 +180,7 @@ def run_flow(case):
 
             def frame_head():
                 if framing == "cl": return b"Content-Length: %d\r\n" % (sub["cl"] if wire else len(body))
-                if framing == "chunked": return b"Transfer-Encoding: chunked\r\n"
+                if framing == "chunked": return te_header(sub)
                 return b""
             if resp:
                 src = "server0"
@@ -191,7 +221,7 @@ def run_flow(case):
             relayed = phead is not None and not (resp and status_of(raw) != 200)
             if relayed:
                 hl = phead.lower()
-                if b"transfer-encoding: chunked" in hl:
+                if head_says_chunked(phead):
                     out_framing = "chunked"
                     peer_chunks, framing_ok, leftover = read_chunked(pbody)
                 else:
@@ -259,7 +289,8 @@ def run_x2(case):
     pols = {False: rq["policy"], True: rs["policy"]}
     with taddons.context(proxyserver.Proxyserver()) as tctx:
         tctx.options.update(body_size_limit=case["limit"], stream_large_bodies=case["thr"],
-                            store_streamed_bodies=bool(case["store"]), http2_ping_keepalive=0)
+                            store_streamed_bodies=bool(case["store"]), http2_ping_keepalive=0,
+                            validate_inbound_headers=not needs_novalidate(case))
         ctx = make_context(opts=tctx.options)
         if cp == "h2": ctx.client.alpn = b"h2"
         lay = http.HttpLayer(ctx, HTTPMode.regular)
@@ -314,8 +345,7 @@ def run_x2(case):
             phead, pbody = split_head(raw)
             if phead is None: return False, None, [], False, b""
             status = status_of(raw) if resp else None
-            hl = phead.lower()
-            if b"transfer-encoding: chunked" in hl:
+            if head_says_chunked(phead):
                 chunks, ok, left = read_chunked(pbody)
                 return True, status, chunks, ok, left
             pieces, acc = [], b""
@@ -346,7 +376,7 @@ def run_x2(case):
             fr = sub["framing"]
             out = []
             if proto == "h1":
-                fh = b"Content-Length: %d\r\n" % len(body) if fr == "cl" else b"Transfer-Encoding: chunked\r\n" if fr == "chunked" else b""
+                fh = b"Content-Length: %d\r\n" % len(body) if fr == "cl" else te_header(sub) if fr == "chunked" else b""
                 head = (b"HTTP/1.1 200 OK\r\n" if resp else b"POST http://a.example/p HTTP/1.1\r\nHost: a.example\r\n") + fh + b"\r\n"
                 out.append(lambda: w.recv(lab, head))
                 for c in chunks:
@@ -564,6 +594,14 @@ class Check(PropertyCheck):
                 "policy": policy, "chunks": [hx(c) for c in chunks], "glue": bool(glue)}
 
     def generate(self, rng, tier):
+        """every message with chunked framing gets one of the Transfer-Encoding spellings the reader accepts"""
+        for case in self._generate(rng, tier):
+            for side in (case, case.get("pre")):
+                if isinstance(side, dict) and side.get("framing") == "chunked" and "te" not in side:
+                    side["te"] = rng.pick(TE_SPELLINGS)
+            yield case
+
+    def _generate(self, rng, tier):
         for s in ["0", "1", "10", "1k", "1m", "2g", "1t", "3b", "k", "", "1K", "1kb", " 7 ", "1_0", "1__0", "_1", "+5", "-5",
                   "- 5", "5 k", " 5k", "5k ", "0x10", "1e3", "١٢", "1.5m", "00012", "\x1c3", "12\n"]:
             yield {"op": "size", "s_hex": hx(s.encode())}
